@@ -212,6 +212,20 @@ NIXAPI DataType string_to_data_type(const std::string& dtype);
 NIXAPI bool data_type_is_numeric(DataType dtype);
 
 /**
+ * @brief Determine if values of one data type can be stored as another.
+ *
+ * Numeric types convert into one another, Bool converts into every numeric
+ * type; nothing else converts (in particular String and the numeric types
+ * do not convert into each other, and nothing but Bool converts into Bool).
+ *
+ * @param from          The data type of the values.
+ * @param to            The data type they are to be stored as.
+ *
+ * @return True if values of type from can be written to data of type to, false otherwise.
+ */
+NIXAPI bool data_type_is_convertible(DataType from, DataType to);
+
+/**
  * @brief Output operator for data type.
  *
  * Prints a human readable string representation of the
